@@ -65,7 +65,7 @@ def body(chk: check.Check):
     else:
         sizes = [(a, b) for a in range(1, 7) for b in range(1, 13)] + [(5, 20), (7, 50), (10, 100), (3, 333), (1, 1000)]
         rand_sizes = [(1, 1), (1, 2), (2, 2), (1, 4), (2, 4), (3, 1), (4, 2), (1, 5), (5, 1), (1, 10), (5, 2), (1, 3), (1, 6), (3, 2)]
-        den, maxg = 4, 5
+        den, maxg = 3, 5
     res = dt.run_model(sizes, rand_sizes, den, maxg)
     chk.add_tlc(f'DrawTypes: {len(sizes)} Halton sizes, nondeterministic entries up to {maxg} generated points on a 1/{den} grid', res)
     cat, behaviours = dt.split_emitted(res)
@@ -107,7 +107,7 @@ def body(chk: check.Check):
                 chk.violation(key, detail, match=facts)
             if via == 'catalogue':
                 by_key[(nm, rec['n'], rec['R'])] = val.get('got')
-                if rec['n'] * rec['R'] in (7, 12) and nm in ('UNIFORM_HALTON3', 'NORMAL_HALTON5', 'UNIFORMSYM_HALTON2'):
+                if (rec['n'], rec['R']) == (1, 7) and nm in ('UNIFORM_HALTON3', 'NORMAL_HALTON5'):
                     chk.sample(dict(behaviour=f"{nm}.generator({rec['n']}, {rec['R']})",
                                     expected_first_row=[_show(t) for t in rec['out'][0]],
                                     observed_first_row=val['got'][0] if val.get('got') else None,
@@ -158,10 +158,20 @@ def body(chk: check.Check):
     verdicts, results = dt.validate(events, chunks=chunks)
     for k, r in enumerate(results):
         chk.add_tlc(f'DrawTypesTrace file {k + 1}/{len(results)} ({len(chunks[k])} events)', r)
-    shown = 0
+    shown = set()
     stats = dict(gen_traces=ngen, quantile_batches=len(qevents), quantile_samples=0, quantile_samples_bad=0,
                  points_in_arrays=0, normal_points_with_underlying_uniform=0, normal_points_bad=0)
     worst = {'low_tail': 0.0, 'central': 0.0, 'elsewhere': 0.0}
+    ratio = {'max_error_over_envelope_bound': 0.0}
+
+    def report_quantile(u, z, source):
+        facts, detail = dt.quantile_facts(u, z, env, source)
+        worst[facts['region']] = max(worst[facts['region']], detail['abs_error_in_probability'])
+        if detail['envelope']:
+            ratio['max_error_over_envelope_bound'] = max(ratio['max_error_over_envelope_bound'],
+                                                         detail['abs_error_in_probability'] / detail['envelope'])
+        chk.violation('quantile', detail, match=facts)
+
     for ev in events:
         v = verdicts.get(ev['tid'])
         if v is None:
@@ -172,8 +182,8 @@ def body(chk: check.Check):
             stats['points_in_arrays'] += npts
             stats['normal_points_with_underlying_uniform'] += sum(1 for x in ev['_u'] if x is not None)
             chk.count((ev['name'], ev['n'], ev['R'], 'trace'), npts)
-            if shown < 2 and ev['name'] in ('UNIFORM_MLHS_ANTI', 'NORMAL_MLHS_ANTI') and (ev['n'], ev['R']) == (3, 4):
-                shown += 1
+            if ev['name'] not in shown and ev['name'] in ('UNIFORM_MLHS_ANTI', 'NORMAL_MLHS_ANTI') and (ev['n'], ev['R']) == (3, 4):
+                shown.add(ev['name'])
                 chk.sample(dict(trace=f"{ev['name']}.generator(3, 4) seed {ev['_seed']}", observed=ev['_vals'],
                                 strata_of_generated_part=ev['st'], underlying=ev['_under'], verdict=v['verdict']))
             for clause in v['fails']:
@@ -186,27 +196,24 @@ def body(chk: check.Check):
             for p in v['qbad']:
                 u, z = ev['_u'][p - 1], ev['_vals'][p - 1]
                 stats['normal_points_bad'] += 1
-                facts, detail = dt.quantile_facts(u, z, env, f"{ev['name']}({ev['n']},{ev['R']}) seed {ev['_seed']} point {p}")
-                worst[facts['region']] = max(worst[facts['region']], detail['abs_error_in_probability'])
-                chk.violation('quantile', detail, match=facts)
+                report_quantile(u, z, f"{ev['name']}({ev['n']},{ev['R']}) seed {ev['_seed']} point {p}")
         elif ev['kind'] == 'quantile':
             stats['quantile_samples'] += len(ev['oks'])
             chk.count(('quantile-cell', ev['cell']), len(ev['oks']))
             for p in v['qbad']:
                 u, z = ev['_u'][p - 1], ev['_z'][p - 1]
                 stats['quantile_samples_bad'] += 1
-                facts, detail = dt.quantile_facts(u, z, env, 'get_normal_wichura_draws(uniform_numbers=u)')
-                worst[facts['region']] = max(worst[facts['region']], detail['abs_error_in_probability'])
-                chk.violation('quantile', detail, match=facts)
+                report_quantile(u, z, 'get_normal_wichura_draws(uniform_numbers=u)')
         else:
             if v['verdict'] != 'ok':
                 chk.violation('trace:coverage', dict(missing_cells=v['qbad']), match=dict(clause='coverage'))
     stats['worst_abs_error_of_failing_samples_by_region'] = worst
+    stats.update(ratio)
     chk.extra['trace_statistics'] = stats
     good = next((x for c in cells for x in c if dt.region(x) == 'elsewhere'), None)
     if good is not None:
         z = float(dt.wichura([good])[0])
-        chk.sample(dict(quantile_sample=good, z=z, Phi_z_minus_u=dt.tail_error(good, z)[0], ok=dt.quantile_ok(good, z)))
+        chk.sample(dict(quantile_sample=good, z=z, Phi_z_minus_u=dt.tail_error(good, z)[0], ok=dt.quantile_ok(good, z)), limit=5)
 
     # ------------------------------------------------------------------ negative controls
     controls(chk, cat, behaviours, env)
@@ -342,6 +349,18 @@ def controls(chk, cat, behaviours, env):
     zref = statistics.NormalDist().inv_cdf(0.3)
     chk.control('quantile oracle: z(0.3) + 1e-12 flagged and z(0.3) accepted',
                 (not dt.quantile_ok(0.3, zref + 1e-12)) and dt.quantile_ok(0.3, zref))
+    # (5) the known-finding matcher must not swallow errors outside the regions or above the envelope
+    finding = next((f for f in chk.findings if f.get('envelope')), None)
+    if finding is not None:
+        nd = statistics.NormalDist()
+        outside, _ = dt.quantile_facts(0.2, nd.inv_cdf(0.2) + 1e-9, finding['envelope'], 'control')
+        larger, _ = dt.quantile_facts(0.6, nd.inv_cdf(0.6) + 1e-6, finding['envelope'], 'control')
+        tail, _ = dt.quantile_facts(0.01, nd.inv_cdf(0.01) + 0.05, finding['envelope'], 'control')
+        inside, _ = dt.quantile_facts(0.6, nd.inv_cdf(0.6) + 1e-9, finding['envelope'], 'control')
+        m = finding['match']
+        chk.control('known-finding matcher: error outside the two regions, error above the envelope (central and tail) are not matched',
+                    not check._matches(m, outside) and not check._matches(m, larger) and not check._matches(m, tail)
+                    and check._matches(m, inside))
 
 
 if __name__ == '__main__':
